@@ -55,40 +55,56 @@ def make(ctl, plain, mode="constant", maxp=1, layer=False, th=None):
     return desc, params
 
 
-def instance(name, desc, params, D=1, qmax=2, maclen=None, free_replay=False, saves=2):
-    """The exhaustive instance: every physically consistent typing history over the keys, every gap 0..D between
-    recorded events.  Environment: no input while a control key press waits in the queue (the recording boundary
-    would not be determined by the input order); unless free_replay, only control keys are released while a replay
-    runs.  States in which a macro was saved with two or more synthesized releases are not expanded (HashSet
-    iteration order, DynMacro.tla)."""
+ENV_TLA = r"""
+\* ----- the typing environment of the C19 instances -------------------------------------------------
+CtlCodes == %(ctl)s
+RecCodes == %(rec)s
+CtlQueued == \E i \in DOMAIN K.L.queue : K.L.queue[i].p /\ K.L.queue[i].x = 0 /\ K.L.queue[i].y \in CtlCodes
+\* no input while a control key press waits in the queue (the recording boundary would not be determined by
+\* the input order); a recording is started only while fewer than Saves macros were saved; plain keys are
+\* pressed only until the last save%(replay_doc)s
+EnvCan == Alive /\ Len(K.L.queue) < QMax /\ ~CtlQueued
+EPress(c) == /\ EnvCan /\ c \notin phys %(press_guard)s
+             /\ (c \in RecCodes => K.dyn.ns < %(saves)d)
+             /\ (c \notin CtlCodes => K.dyn.ns < %(saves)d)
+             /\ K' = HandleInput(K, "d", c) /\ phys' = phys \cup {c}
+             /\ mon' = Mon!MonIn(mon, [e |-> "d", c |-> c, out |-> K'.out])
+             /\ hist' = Append(hist, <<"d", c>>)
+ERelease(c) == /\ EnvCan /\ c \in phys %(release_guard)s
+               /\ K' = HandleInput(K, "u", c) /\ phys' = phys \ {c}
+               /\ mon' = Mon!MonIn(mon, [e |-> "u", c |-> c, out |-> K'.out])
+               /\ hist' = Append(hist, <<"u", c>>)
+"""
+
+
+def instance(name, desc, params, D=1, qmax=1, maclen=3, free_replay=False, saves=1):
+    """The exhaustive instance: every physically consistent typing history over the keys within the bounds: at most
+    `saves` macros saved, at most `maclen` stored events in a recording, gaps 0..D ticks between recorded events,
+    at most qmax unprocessed events.  States in which a macro was saved with two or more synthesized releases are
+    not expanded (HashSet iteration order, DynMacro.tla)."""
     kbd = cfgdesc.render_kbd(desc)
     keys = [cfgdesc.code(k) for k in desc["keys"]]
     ctl = "{" + ", ".join(str(c["c"]) for c in params["ctl"]) + "}"
-    ctlq = "(\\E i \\in DOMAIN K.L.queue : K.L.queue[i].p /\\ K.L.queue[i].x = 0 /\\ K.L.queue[i].y \\in %s)" % ctl
-    defs = ["DynBound == /\\ ~K.dyn.amb /\\ K.dyn.ns <= %d" % saves + " /\\ (K.dyn.rec = <<>> \\/ K.dyn.rec[1].delay <= %d)" % D
-            + ("" if maclen is None else
-               " /\\ (K.dyn.rec = <<>> \\/ Len(K.dyn.rec[1].items) <= %d)" % maclen)]
-    guard = "/\\ ~" + ctlq
-    inst = {"name": "c19_" + name, "kbd": kbd, "keys": keys, "qmax": qmax,
+    rec = "{" + ", ".join(str(c["c"]) for c in params["ctl"] if c["k"] == "rec") + "}"
+    env = ENV_TLA % dict(
+        ctl=ctl, rec=rec, saves=saves,
+        replay_doc="" if free_replay else "; while a replay runs only control keys are released",
+        press_guard="" if free_replay else "/\\ K.dyn.rep = <<>>",
+        release_guard="" if free_replay else "/\\ (K.dyn.rep = <<>> \\/ c \\in CtlCodes)")
+    bound = ("DynBound == /\\ ~K.dyn.amb /\\ K.dyn.ns <= %d /\\ (K.dyn.rec = <<>> \\/ (K.dyn.rec[1].delay <= %d /\\ "
+             "Len(K.dyn.rec[1].items) <= %d))" % (saves, D, maclen))
+    return {"name": "c19_" + name, "kbd": kbd, "keys": keys, "qmax": qmax,
             "monitor": {"module": "P_C19", "params": params},
-            "constraint": "DynBound", "extra_defs": "\n".join(defs), "extra_guard": guard,
+            "constraint": "DynBound", "extra_defs": bound, "extra_guard": "/\\ FALSE",
+            "extra_actions": env, "extra_next": "\\/ (\\E c \\in EnvKeys : EPress(c) \\/ ERelease(c))",
             "invariants": []}
-    if not free_replay:
-        # while a replay runs only releases of control keys are typed
-        inst["extra_guard"] = guard + " /\\ K.dyn.rep = <<>>"
-        inst["extra_actions"] = ("RelCtl(c) == /\\ Alive /\\ Len(K.L.queue) < QMax /\\ K.dyn.rep # <<>> /\\ ~%s /\\ c \\in phys /\\ c \\in %s\n" % (ctlq, ctl) +
-                                 "             /\\ K' = HandleInput(K, \"u\", c) /\\ phys' = phys \\ {c}\n"
-                                 "             /\\ mon' = Mon!MonIn(mon, [e |-> \"u\", c |-> c, out |-> K'.out])\n"
-                                 "             /\\ hist' = Append(hist, <<\"u\", c>>)")
-        inst["extra_next"] = "\\/ (\\E c \\in EnvKeys : RelCtl(c))"
-    return inst
 
 
 def family(tier):
     F = []
     A = {"a": K("a")}
     AB = {"a": K("a"), "b": {"t": "chord", "mods": ["lsft"], "k": "b"}}
-    F.append(("basic_const", make(["rec1", "stop", "play1"], A, "constant", 1), dict(D=1)))
+    F.append(("basic_const", make(["rec1", "stop", "play1"], A, "constant", 1), dict(D=1, saves=1, maclen=3)))
     return F
 
 
